@@ -791,7 +791,7 @@ func sentinelLost(kind, outs string) bool {
 
 func runNet1(j job) (string, bool) {
 	switch j.kind {
-	case "srv.ip", "srv.scion", "srv.scionnts", "srv.scionauth", "srv.scmp", "srv.csptp", "srv.ntske", "srv.kestall", "srv.quic", "srv.quicke", "cli.scionnts", "cli.overlap", "cli.ipopt", "cli.kestall", "cli.kestallquic", "srv.scionnodaemon", "srv.dispatcher", "srv.kefd", "srv.scionpar", "srv.ip6", "cli.ip6", "cli.ip", "cli.nts", "cli.scion", "cli.csptp":
+	case "srv.ip", "srv.scion", "srv.scionnts", "srv.scionauth", "srv.scmp", "srv.csptp", "srv.ntske", "srv.kestall", "srv.quic", "srv.quicke", "cli.scionnts", "cli.overlap", "cli.ipopt", "cli.kestall", "cli.kestallquic", "cli.kefdleak", "srv.scionnodaemon", "srv.dispatcher", "srv.kefd", "srv.scionpar", "srv.ip6", "cli.ip6", "cli.ip", "cli.nts", "cli.scion", "cli.csptp":
 	default:
 		return "", false
 	}
